@@ -37,7 +37,8 @@ if [ "$ID" = "C20" ]; then
   DETMAPS="$VERIF_DIR/.build/goroot-c20"
   RGO="env GOROOT=$DETMAPS GOTOOLCHAIN=local $DETMAPS/bin/go"
 fi
-./bin/instrument -repo "$REPO" -out "$B/overlay" -fs ${YIELD:+-yield "$YIELD"} ${DETMAPS:+-detmaps "$DETMAPS"} >"$B/instrument.log" 2>&1 || { cat "$B/instrument.log" >&2; build_fail "overlay generation"; }
+COOP=".,datamodel,fluent,linking,linking/cid,linking/preload,multicodec,codec,codec/dagcbor,codec/dagjson,codec/cbor,codec/json,codec/raw,node/basicnode,node/bindnode,node/mixins,schema,schema/dmt,schema/dsl,storage,storage/fsstore,storage/memstore,storage/sharding,traversal,traversal/selector,traversal/selector/builder,traversal/patch,printer"
+./bin/instrument -repo "$REPO" -out "$B/overlay" -fs -coop "$COOP" ${YIELD:+-yield "$YIELD"} ${DETMAPS:+-detmaps "$DETMAPS"} >"$B/instrument.log" 2>&1 || { cat "$B/instrument.log" >&2; build_fail "overlay generation"; }
 MODFLAG=""
 if [ "$REPO" != "/repo" ]; then
   export VERIF_EVIDENCE_DIR="$B/evidence-scratch-repo"
